@@ -569,6 +569,7 @@ func main() {
 			"a dial without timeout whose connect never completes owes no callback until something ends it; with a timeout exactly one callback (with an error) is owed after the timeout fired",
 			"virtual time: deadline timers fire only when the harness lets them (after quiescence) or as an explorer choice",
 		},
-		Build: build, QuickBudget: 40 * time.Second, ThoroughBudget: 10 * time.Minute, MinNonTrivial: 50,
+		UsesSimulatedKernel: true,
+		Build:               build, QuickBudget: 40 * time.Second, ThoroughBudget: 10 * time.Minute, MinNonTrivial: 50,
 	})
 }
